@@ -647,6 +647,8 @@ class CExec:
             oname = "%s.%s" % (base.obj, fname)
         else:
             lv = self.lval(st, base_n)
+            if lv[0] == "var" and isinstance(st.vars.get(lv[1]), tuple) and st.vars[lv[1]][0] == "struct":
+                return ("sfield", lv[1], fname)
             if lv[0] == "var":
                 oname = "%s.%s" % (st.names.get(lv[1], lv[1]), fname)
             else:
@@ -672,6 +674,12 @@ class CExec:
             return v
         if lv[0] == "const":
             return lv[1]
+        if lv[0] == "sfield":
+            flds = st.vars[lv[1]][1]
+            if lv[2] not in flds:
+                self.oblige(st, "ub", "uninitialised_read.%s.%s" % (st.names.get(lv[1], "?"), lv[2]), False, node)
+                raise OutOfSubset("read of an uninitialised struct field")
+            return flds[lv[2]]
         p = lv[1]
         o = st.objs.get(p.obj)
         if o is not None and o.elem.kind == "array":
@@ -681,6 +689,10 @@ class CExec:
     def write_lval(self, st, lv, v, node):
         if lv[0] == "var":
             st.vars[lv[1]] = v
+        elif lv[0] == "sfield":
+            flds = dict(st.vars[lv[1]][1])
+            flds[lv[2]] = v
+            st.vars[lv[1]] = ("struct", flds)
         elif lv[0] == "const":
             raise OutOfSubset("write to a global that is not modelled")
         else:
@@ -1000,6 +1012,23 @@ class CExec:
             st.mem[d.obj] = z3.Lambda([i], z3.If(z3.And(i >= d.off, i < d.off + n_),
                                                  z3.Select(src_arr, i - d.off + s_.off), z3.Select(dst_arr, i)))
             return d
+        if name in ("memcmp", "__builtin_memcmp"):
+            a_, b_, cnt = self.ev(st, argn[0]), self.ev(st, argn[1]), self.ev(st, argn[2])
+            if not (isinstance(a_, Ptr) and isinstance(b_, Ptr) and a_.obj in st.objs and b_.obj in st.objs):
+                raise OutOfSubset("memcmp on non-modelled pointers")
+            oa, ob_ = st.objs[a_.obj], st.objs[b_.obj]
+            if oa.length is None or ob_.length is None:
+                raise OutOfSubset("memcmp on an object of unknown extent")
+            n_ = cnt.t
+            self.oblige(st, "ub", "memcmp.first_in_bounds." + str(a_.obj), z3.And(n_ >= 0, a_.off >= 0, a_.off + n_ <= oa.length), n)
+            self.oblige(st, "ub", "memcmp.second_in_bounds." + str(b_.obj), z3.And(n_ >= 0, b_.off >= 0, b_.off + n_ <= ob_.length), n)
+            self.assumptions.add("memcmp(a, b, n) == 0 iff the first n bytes are equal (C11 7.24.4.1)")
+            i = z3.Int("i!memcmp")
+            r = self.fresh("memcmp")
+            st.path.append(z3.And(r >= -255, r <= 255))
+            st.path.append((r == 0) == z3.ForAll([i], z3.Implies(z3.And(i >= 0, i < n_),
+                                                                 z3.Select(st.mem[a_.obj], a_.off + i) == z3.Select(st.mem[b_.obj], b_.off + i))))
+            return CV(ty, r)
         if name in ("abs", "labs", "llabs"):
             x = self.ev(st, argn[0])
             return self.fit(st, ty, z3.If(x.t >= 0, x.t, -x.t), n, "abs")
@@ -1246,6 +1275,10 @@ class CExec:
                     raise OutOfSubset("array initialiser %s" % init["kind"])
             return
         init = [c for c in d.get("inner", []) if not c["kind"].endswith("Attr")]
+        if ty.kind in ("struct", "opaque") and not init:
+            # local struct variable without initialiser: a bag of (indeterminate) fields, written/read member by member
+            st.vars[d["id"]] = ("struct", {})
+            return
         if init:
             v = self.ev(st, init[0])
             st.vars[d["id"]] = v
